@@ -19,7 +19,8 @@ PEER = B.PEER_HOSTS[0]
 
 OPS = ["in_req_retransmit_rejected", "conn_while_stopping", "in_req_answered", "in_req_rejected_app", "in_req_rejected_avp", "in_req_rejected_realm", "out_req_answered", "dwr_in", "dwr_out",
        "conn_inbound_then_gone", "conn_unknown_peer", "conn_cer_nocommon", "conn_dial_refused", "conn_dial_async_fail", "conn_dial_cea_rejected",
-       "conn_dial_ok_then_closed", "conn_second_of_connected_peer", "conn_silent_until_timeout"]
+       "conn_dial_ok_then_closed", "conn_second_of_connected_peer", "conn_silent_until_timeout",
+       "in_req_then_conn_gone", "out_req_then_conn_gone", "conn_unknown_peer_fresh_name"]
 
 
 def measure(h, skip):
@@ -36,6 +37,8 @@ def measure(h, skip):
             if nested and len(nested) == len(v):
                 # dict of containers keyed by peer/origin/realm (bounded by the configuration): count what they hold
                 out[name + "[]"] = 0
+                # keys that are neither a live connection nor a configured peer/realm name: whatever peers chose to send
+                out[name + "#foreign_keys"] = sum(1 for k in v if k not in allowed)
                 if depth < 2:
                     for x in nested:
                         walk(name + "[]", x, depth + 1)
@@ -43,6 +46,9 @@ def measure(h, skip):
                 out[name] = out.get(name, 0) + len(v)
         elif isinstance(v, (list, set, tuple)) and not isinstance(v, str):
             out[name] = out.get(name, 0) + len(v)
+
+    nn = h.n
+    allowed = set(nn.connections) | set(nn.peers) | {p.encode() for p in nn.peers} | set(nn._peer_routes) | {nn.origin_host, nn.origin_host.encode()}
 
     def obj(prefix, o):
         for k, v in vars(o).items():
@@ -121,6 +127,29 @@ class Driver(H.Hist):
             self.ev_accept()
             self.ev_cer("stranger.local.realm", [4])
             self.settle()
+        elif name == "conn_unknown_peer_fresh_name":
+            self.ev_accept()
+            self.ev_cer("stranger%d.local.realm" % i, [4])          # every refused stranger under a name never seen before
+            self.settle()
+        elif name == "in_req_then_conn_gone":
+            # the connection ends while the application still owes the answer; the late answer can no longer be routed
+            self._push(c, B.ccr(PEER, i, i).as_bytes())
+            pending = app.requests[-1] if app.requests else None
+            self.ev_gone(c)
+            self.main_conn()
+            if pending is not None:
+                try:
+                    app.send_answer(app.generate_answer(pending, result_code=2001))
+                except Exception:
+                    pass
+                self.settle()
+        elif name == "out_req_then_conn_gone":
+            req = B.ccr(B.NODE_HOST, 0, i)
+            conn, _ = n.route_request(app, req)
+            n.send_message(conn, req)
+            self.settle()
+            self.ev_gone(c)
+            self.main_conn()
         elif name == "conn_cer_nocommon":
             self.ev_accept()
             self.ev_cer(PEER, [9])
@@ -172,15 +201,18 @@ def growth(ops: List[int]) -> bool:
         skip.add("_app_waiting_answer")
     names = [OPS[hx.concretize_range(o, 0, len(OPS))] for o in ops]
     try:
-        d = Driver()
-        for k in OPS:                 # warm-up: everything has happened once
-            d.op(k)
-        d.main_conn()
-        m0 = measure(d, skip)
-        for k in names:
-            d.op(k)
-        d.main_conn()
-        m1 = measure(d, skip)
+        # every symbolic input has been concretised above (one recorded branch each): the rest of the path is concrete and
+        # runs natively
+        with hx.untraced():
+            d = Driver()
+            for k in OPS:                 # warm-up: everything has happened once
+                d.op(k)
+            d.main_conn()
+            m0 = measure(d, skip)
+            for k in names:
+                d.op(k)
+            d.main_conn()
+            m1 = measure(d, skip)
     except Exception as e:
         return hx.fail((ops,), "raised %s: %s" % (type(e).__name__, str(e)[:100]))
     diff = sorted((k, m0.get(k, 0), m1.get(k, 0)) for k in set(m0) | set(m1) if m0.get(k, 0) != m1.get(k, 0))
